@@ -403,6 +403,8 @@ func (s *verifAliasSuite) blocked(t *state.Task, running []*state.Task) bool {
 	}
 	s.failTaskID = ""
 	s.failedHow = "entry"
+	// as in TaskRunner.run: the lanes are aborted while the task is still unready (Doing)
+	t.SetStatus(state.DoingStatus)
 	t.Change().AbortLanes(t.Lanes())
 	t.SetStatus(state.ErrorStatus)
 	t.Errorf("verif: injected failure on entry")
